@@ -463,4 +463,50 @@ theorem C13_set_fixed_val_vec_3d (nz ny nx : ℤ) (f : Vec3 B) (hxy : f.x ≠ f.
     apply exec3_other
     simp [written3, Call3.written, setFixedValVec3D, setFixedValVecOn3D, call_set_fixed_val_stencil_3d, hx, hy, hz]
 
+/-- vorticity update from the penalised velocity: `ω += p·(2h curl (u_pen − u))` component-wise on the interior of reach 1
+(the update of the difference field, cf. C12_penalised_eq_update_of_difference_3d), nothing else -/
+theorem C13_update_vorticity_from_penalised_3d (nz ny nx : ℤ) (w pen vel : Vec3 B) (hwp : Distinct33 w pen) (hwv : Distinct33 w vel)
+    (p : K) (s : Store3 B K) :
+    (∀ i j k, inBox3 nz ny nx i j k →
+      exec3 (updateVorticityFromPenalised3D nz ny nx w pen vel p) s w.x i j k =
+        (if inner3 nz ny nx 1 i j k then s w.x i j k + p *
+            (((s pen.z i (j+1) k - s vel.z i (j+1) k) - (s pen.z i (j-1) k - s vel.z i (j-1) k))
+             - ((s pen.y (i+1) j k - s vel.y (i+1) j k) - (s pen.y (i-1) j k - s vel.y (i-1) j k)))
+         else s w.x i j k) ∧
+      exec3 (updateVorticityFromPenalised3D nz ny nx w pen vel p) s w.y i j k =
+        (if inner3 nz ny nx 1 i j k then s w.y i j k + p *
+            (((s pen.x (i+1) j k - s vel.x (i+1) j k) - (s pen.x (i-1) j k - s vel.x (i-1) j k))
+             - ((s pen.z i j (k+1) - s vel.z i j (k+1)) - (s pen.z i j (k-1) - s vel.z i j (k-1))))
+         else s w.y i j k) ∧
+      exec3 (updateVorticityFromPenalised3D nz ny nx w pen vel p) s w.z i j k =
+        (if inner3 nz ny nx 1 i j k then s w.z i j k + p *
+            (((s pen.y i j (k+1) - s vel.y i j (k+1)) - (s pen.y i j (k-1) - s vel.y i j (k-1)))
+             - ((s pen.x i (j+1) k - s vel.x i (j+1) k) - (s pen.x i (j-1) k - s vel.x i (j-1) k)))
+         else s w.z i j k)) ∧
+    (∀ b, b ≠ w.x → b ≠ w.y → b ≠ w.z → exec3 (updateVorticityFromPenalised3D nz ny nx w pen vel p) s b = s b) := by
+  obtain ⟨axy, axz, ayz, xx, xy, xz, yx, yy, yz, zx, zy, zz⟩ := hwp
+  obtain ⟨_, _, _, bxx, bxy, bxz, byx, byy, byz, bzx, bzy, bzz⟩ := hwv
+  have ayx := axy.symm; have azx := axz.symm; have azy := ayz.symm
+  have xx' := xx.symm; have xy' := xy.symm; have xz' := xz.symm
+  have yx' := yx.symm; have yy' := yy.symm; have yz' := yz.symm
+  have zx' := zx.symm; have zy' := zy.symm; have zz' := zz.symm
+  have bxx' := bxx.symm; have bxy' := bxy.symm; have bxz' := bxz.symm
+  have byx' := byx.symm; have byy' := byy.symm; have byz' := byz.symm
+  have bzx' := bzx.symm; have bzy' := bzy.symm; have bzz' := bzz.symm
+  refine ⟨?_, ?_⟩
+  · intro i j k h
+    refine ⟨?_, ?_, ?_⟩ <;>
+    · prog_simp3 [updateVorticityFromPenalised3D, call_update_vorticity_from_penalised_velocity_x_comp_stencil_3d,
+        call_update_vorticity_from_penalised_velocity_y_comp_stencil_3d, call_update_vorticity_from_penalised_velocity_z_comp_stencil_3d,
+        update_vorticity_from_penalised_velocity_x_comp_stencil_3d, update_vorticity_from_penalised_velocity_y_comp_stencil_3d,
+        update_vorticity_from_penalised_velocity_z_comp_stencil_3d, inner3,
+        axy, axz, ayz, ayx, azx, azy, xx, xy, xz, yx, yy, yz, zx, zy, zz, xx', xy', xz', yx', yy', yz', zx', zy', zz',
+        bxx, bxy, bxz, byx, byy, byz, bzx, bzy, bzz, bxx', bxy', bxz', byx', byy', byz', bzx', bzy', bzz']
+      split_ifs <;> first | rfl | ring1 | (exfalso; omega)
+  · intro b hbx hby hbz
+    apply exec3_other
+    simp [written3, Call3.written, updateVorticityFromPenalised3D, call_update_vorticity_from_penalised_velocity_x_comp_stencil_3d,
+      call_update_vorticity_from_penalised_velocity_y_comp_stencil_3d, call_update_vorticity_from_penalised_velocity_z_comp_stencil_3d,
+      hbx, hby, hbz]
+
 end Sopht.Props.C13
